@@ -53,7 +53,7 @@ func Calibrate(ind *reg.Indicator, cfg reg.Cfg, class string, n int, r *gen.Rand
 			if dres.Bad == nil {
 				fmt.Fprintf(&sb, " | DEV %s MATCHES compared=%d maxrel=%.2g", d.Key, dres.Compared, dres.MaxRel)
 			} else {
-				fmt.Fprintf(&sb, " | dev %s mismatches %d/%d", d.Key, dres.NBad, dres.Compared)
+				fmt.Fprintf(&sb, " | dev %s mismatches %d/%d first k=%d actual=%s expected=%s", d.Key, dres.NBad, dres.Compared, dres.Bad.K, dres.Bad.ActualS, dres.Bad.ExpectS)
 			}
 		}
 	}
